@@ -3,6 +3,9 @@
 import glob, json, os, shutil, sys
 HERE = os.path.dirname(os.path.dirname(os.path.abspath(__file__)))
 out = sys.argv[1]
+prefix = 'w2'
+if len(sys.argv) > 2 and sys.argv[2].startswith('--prefix='):
+    prefix = sys.argv.pop(2).split('=', 1)[1]
 repl = dict(a.split('=') for a in sys.argv[2:])      # e.g. B7/b4=B7/b4r  (rebased patch to use instead)
 for meta in sorted(glob.glob(os.path.join(out, 'B*', 'b?_meta.json'))):
     B = os.path.basename(os.path.dirname(meta))
@@ -12,13 +15,13 @@ for meta in sorted(glob.glob(os.path.join(out, 'B*', 'b?_meta.json'))):
     if key in repl:
         patch = os.path.join(out, repl[key] + '.diff')
     mj = json.load(open(meta))
-    d = os.path.join(HERE, 'benign', 'w2-%s-%s' % (B, b))
+    d = os.path.join(HERE, 'benign', '%s-%s-%s' % (prefix, B, b))
     os.makedirs(d, exist_ok=True)
     shutil.copy(patch, os.path.join(d, 'patch.diff'))
     chk = os.path.join(out, B, b + '_check.py')
     if os.path.exists(chk):
         shutil.copy(chk, os.path.join(d, 'check.py'))
-    json.dump({'kind': 'benign', 'origin': 'independent sub-agent, wave 2 (given only the area of the code, nothing from /verif)',
+    json.dump({'kind': 'benign', 'origin': 'independent sub-agent (given only the area of the code, nothing from /verif)',
                'summary': mj.get('summary', ''), 'why_equivalent': mj.get('why_equivalent', ''), 'files_changed': mj.get('files_changed'),
                'confirmed': {'tests': '165 passed with the patch applied', 'differential_check': 'check.py output byte-identical on HEAD and HEAD+patch',
                              'rebased': key in repl}},
